@@ -45,125 +45,178 @@ def run(repo, chk, tier):
 
 
 # -- 1 / 2 ---------------------------------------------------------------------------------
+def _subst_env(stmt, res):
+    """the statement with the path's final bindings substituted (to see through local aliases of the stores)"""
+    import copy
+    from ..match import _Subst
+    try:
+        return ast.fix_missing_locations(_Subst({k: v for k, v in (res.env or {}).items() if v is not None}).visit(copy.deepcopy(stmt)))
+    except Exception:
+        return stmt
+
+
+def _retarget(g):
+    """guard of a comprehension over store.items() re-expressed over the loop markers (key = lvar 0/0, count = lvar 0/1)"""
+    def rec(t):
+        if t == ('sub', ('cvar', 0, 0), ('num', 0)):
+            return ('lvar', 0, 0)
+        if t == ('sub', ('cvar', 0, 0), ('num', 1)):
+            return ('lvar', 0, 1)
+        if isinstance(t, tuple):
+            return tuple(rec(x) for x in t)
+        return t
+    return rec(g)
+
+
+def _loop_terms(fn, u, roles=None):
+    """canonical terms of a `foreach` update with its loop variables bound to positional markers: (chain, key, value, guard, args)"""
+    bound = dict(roles or {})
+    chain = []
+    for depth, (names, it, shape) in enumerate(u.get('chain', [])):
+        it_t = Canon(fn.module, Scope(None), inline=False, bound=dict(bound)).t(it)
+        if isinstance(shape, ast.Name):
+            bound[shape.id] = ('lvar', depth, 0)
+        else:
+            for j, x in enumerate(shape.elts if isinstance(shape, (ast.Tuple, ast.List)) else []):
+                if isinstance(x, ast.Name):
+                    bound[x.id] = ('lvar', depth, j)
+        chain.append(it_t)
+    T = lambda e: Canon(fn.module, Scope(None), inline=False, bound=dict(bound)).t(e) if e is not None else None
+    key, val, guard, args, tgt = T(u.get('key')), T(u.get('value')), T(u.get('guard')), [T(a) for a in u.get('args', [])], T(u['target'])
+    # a single loop over a comprehension / map / filter: for t in (f(x) for x in S if g(x)): eff(t)   is   for x in S: if g(x): eff(f(x))
+    while len(chain) == 1 and chain[0][0] in ('genexp', 'listcomp') and len(chain[0][2]) == 1:
+        elt, (it, ifs) = chain[0][1], chain[0][2][0]
+        L = ('lvar', 0, 0)
+        cv = ('cvar', 0, 0)
+
+        def rep(t, a, b):
+            if t == a:
+                return b
+            if isinstance(t, tuple):
+                return tuple(rep(x, a, b) for x in t)
+            return t
+        elt_l = rep(elt, cv, L)
+        key, val, tgt = rep(key, L, elt_l), rep(val, L, elt_l), rep(tgt, L, elt_l)
+        args = [rep(a, L, elt_l) for a in args]
+        guard = rep(guard, L, elt_l) if guard is not None else None
+        for g in ifs:
+            gl = rep(g, cv, L)
+            guard = gl if guard is None else ('and', tuple(sorted([guard, gl], key=repr)))
+        chain = [it]
+    return chain, key, val, guard, args, tgt
+
+
 def rare_values(repo, chk):
+    """compute_value_counts evaluated as a whole (loops that only apply effects are summarised as `for every element: effect`):
+       (a) every (column, value) occurrence of the batch adds 1 to the rare-value store under that pair, unless the pair is retired;
+       (b) a pair whose running count exceeds the bound is added to the retirement set and removed from the store."""
+    from ..match import run_paths
     fn = repo.func(CR, 'compute_value_counts')
     m = fn.module
-    par = parents(fn.node)
+    frame, args = fn.params[0], fn.params[1]
+    E = lambda src, b=None: expected_term(m, src, b or {})
+    STORE, IGN = ('name', 'GLOBAL_RARE_VALUE_STORAGE'), ('name', 'IGNORED_VALUES')
+    paths = run_paths(fn, None, None, max_forks=4)
+    if paths is None or not paths:
+        chk.unsure('C13.1', 'R5', fn.site(), 'compute_value_counts', 'too many undecidable tests')
+        return
+    seen = set()
+    for assume, res in paths:
+        if res.unknown is not None:
+            chk.unsure('C13.1', 'R5', fn.site(res.unknown), ast.unparse(res.unknown)[:80], 'a statement outside the vocabulary of effect loops (for every element: update a container) decides the counts')
+            continue
+        ups = [u for u in res.updates if u['kind'] == 'foreach']
+        flat = [u for u in res.updates if u['kind'] != 'foreach']
+        sig = tuple(ast.unparse(u['node'])[:60] for u in res.updates)
+        if sig in seen:
+            continue
+        seen.add(sig)
+        L0, L1 = ('lvar', 0, 0), ('lvar', 1, 0)
+        # (a) the increments
+        incs = [(u, _loop_terms(fn, u)) for u in ups if u['op'] in ('inc', 'store')]
+        incs = [(u, t) for u, t in incs if t[5] == STORE]
+        other_store_writes = [u for u in flat if term_of(fn, u['target'], inline=False) == STORE]
+        for u in other_store_writes:
+            chk.bad('C13.1', 'R5', fn.site(u['node']), ast.unparse(u['node'])[:100], 'the rare-value store is written outside the per-occurrence counting loop')
+        if not incs:
+            opaque = [e for e in res.effects if 'GLOBAL_RARE_VALUE_STORAGE' in ast.unparse(_subst_env(e, res)) or any(isinstance(x, ast.AugAssign) for x in ast.walk(e))]
+            opaque += [u['node'] for u in res.updates if term_of(fn, u['target'], inline=False) == STORE and u['kind'] != 'foreach']
+            if opaque:
+                chk.unsure('C13.1', 'R5', fn.site(opaque[0]), ast.unparse(opaque[0]).replace('\n', ' ')[:100], 'the loop that counts occurrences is outside the vocabulary of effect loops')
+            else:
+                chk.bad('C13.1', 'R5', fn.site(), 'storage[(column, value)] += 1', 'no increment of the rare-value store found')
+            continue
+        for u, (chain, key, val, guard, _a, tgt) in incs:
+            site = fn.site(u['node'])
+            shown = ast.unparse(u['node'])
+            cols_ok = len(chain) == 2 and chain[0] in (E(f'{frame}.columns'), E(frame), E(f'list({frame}.columns)'))
+            vals_ok = len(chain) == 2 and chain[1] in [expected_term(m, f'{frame}[C]{sfx}', {'C': L0}) for sfx in ('.values', '', '.values.tolist()', '.tolist()', '.to_numpy()')]
+            chk.expect(cols_ok and vals_ok, 'C13.1c', 'R13', site, ' x '.join(ast.unparse(i)[:50] for _, i, _ in u['chain']), 'every value of every column of the batch is visited once', 'the counting loops must visit every row value of every column exactly once')
+            chk.expect(key == ('tuple', L0, L1), 'C13.1a', 'R5', site, shown, 'store key is (column, value)', f'the rare-value store must be keyed by (column, value); found key {show(key)[:100]}')
+            chk.expect(u['op'] == 'inc' and u.get('method') == 'Add' and val == ('num', 1), 'C13.1d', 'R13', site, shown, 'each occurrence counts 1', 'each occurrence must add exactly 1')
+            # guard: the same key is not in the retirement set
+            want_guard = ('cmp', 'notin', key, IGN) if key is not None else None
+            if guard == want_guard:
+                chk.ok('C13.1b', 'R5', site, shown, 'membership test on the retirement set uses the same key and dominates the increment')
+            elif guard is not None and guard[0] == 'cmp' and guard[1] == 'notin' and guard[3] == IGN:
+                chk.bad('C13.1b', 'R5', site, ast.unparse(u['guard'])[:100], f'the retirement set is tested with key {show(guard[2])} but filled with keys of shape {show(key)}: a retired pair is never recognised and is counted again from zero in the next batch')
+            elif guard is None or not any(x == IGN for x in walk_term(guard)):
+                chk.bad('C13.2b', 'R3', site, shown, f'the increment is not guarded by `(column, value) not in <retired set>`: retired pairs are counted again (guard found: {show(guard)[:80] if guard else "none"})')
+            else:
+                chk.unsure('C13.1b', 'R5', site, ast.unparse(u['guard'])[:100], 'the guard of the increment mentions the retirement set in a form that is not recognised')
+        # (b) retirement
+        adds = [(u, _loop_terms(fn, u)) for u in ups if u['op'] == 'call' and u['method'] == 'add']
+        adds = [(u, t) for u, t in adds if t[5] == IGN]
+        K, V = ('lvar', 0, 0), ('lvar', 0, 1)
+        bound_t = E(f'{args}.rare_value_count_upper_bound')
+        if not adds:
+            chk.bad('C13.2a', 'R14', fn.site(), 'ignored.add(key)', 'pairs above the threshold are no longer retired')
+        collected = {}     # local list name -> (guard, key) of what it collects over store.items()
+        for u in ups:
+            if u['op'] == 'call' and u['method'] == 'append' and isinstance(u['target'], ast.Name):
+                chain, key, val, guard, a_, tgt = _loop_terms(fn, u)
+                if len(chain) == 1 and chain[0] == E('GLOBAL_RARE_VALUE_STORAGE.items()') and a_ and a_[0] == K:
+                    collected[u['target'].id] = guard
+        for assume2, res2 in [(assume, res)]:
+            for k2, v2 in (res2.env or {}).items():
+                # keys collected by a comprehension: [k for k, v in store.items() if v > bound]
+                if v2 is not None and isinstance(v2, (ast.ListComp, ast.SetComp, ast.GeneratorExp)):
+                    t2 = term_of(fn, v2, inline=False)
+                    if t2[0] in ('listcomp', 'setcomp', 'genexp') and len(t2[2]) == 1 and t2[2][0][0] == E('GLOBAL_RARE_VALUE_STORAGE.items()') and t2[1] == ('sub', ('cvar', 0, 0), ('num', 0)) and len(t2[2][0][1]) == 1:
+                        g2 = t2[2][0][1][0]
+                        collected[k2] = _retarget(g2)
+        for u, (chain, key, val, guard, a_, tgt) in adds:
+            site = fn.site(u['node'])
+            direct = len(chain) == 1 and chain[0] == E('GLOBAL_RARE_VALUE_STORAGE.items()') and a_ and a_[0] == K
+            via_list = len(chain) == 1 and chain[0][0] == 'name' and chain[0][1] in collected and a_ and a_[0] == K
+            chk.expect(direct or via_list, 'C13.1e', 'R5', site, ast.unparse(u['node']), 'retired keys are the keys of the store itself (same shape)', 'keys added to the retirement set must be the keys of the rare-value store (iteration over storage.items())')
+            g = guard if direct else (collected.get(chain[0][1]) if via_list else None)
+            if direct or via_list:
+                if g == ('cmp', '<', bound_t, V):
+                    chk.ok('C13.2a', 'R14', site, show(g)[:100], 'a pair is retired exactly when its running count exceeds the bound')
+                elif g is not None and g[0] == 'cmp' and any(x == V for x in walk_term(g)):
+                    chk.bad('C13.2a', 'R14', site, show(g)[:100], f'retirement must be `count > args.rare_value_count_upper_bound` (rare = frequency <= bound); found {show(g)[:100]}')
+                elif g is None:
+                    chk.bad('C13.2a', 'R14', site, ast.unparse(u['node']), 'retirement is not guarded by `count > args.rare_value_count_upper_bound`')
+                else:
+                    chk.unsure('C13.2a', 'R14', site, show(g)[:100], 'the condition under which a pair is retired is not recognised')
+        # every retired key leaves the store
+        dels = [(u, _loop_terms(fn, u)) for u in ups if (u['op'] == 'del' or (u['op'] == 'call' and u['method'] == 'pop'))]
+        dels = [(u, t) for u, t in dels if t[5] == STORE]
+        ok_del = False
+        for u, (chain, key, val, guard, a_, tgt) in dels:
+            k_t = key if u['op'] == 'del' else (a_[0] if a_ else None)
+            if len(chain) == 1 and chain[0][0] == 'name' and chain[0][1] in collected and k_t == K and guard is None:
+                # the list holds exactly the keys that were retired (same guard as the additions to the retirement set)
+                add_guards = [t[3] if (len(t[0]) == 1 and t[0][0] == E('GLOBAL_RARE_VALUE_STORAGE.items()')) else collected.get(t[0][0][1]) for _, t in adds if t[0]]
+                ok_del = collected[chain[0][1]] in add_guards or not adds
+        if adds and not dels:
+            chk.bad('C13.2c', 'R13', fn.site(), 'for key in keys_to_remove: del storage[key]', 'a pair whose count exceeded the threshold is retired but not removed from the rare-value store: frequent values are reported as rare')
+        elif adds:
+            chk.expect(ok_del, 'C13.2c', 'R13', fn.site(dels[0][0]['node']), ast.unparse(dels[0][0]['node']), 'every retired pair leaves the rare-value report',
+                       'a pair whose count exceeded the threshold is retired but not removed from the rare-value store: frequent values are reported as rare', soft=True)
     store_al = {'GLOBAL_RARE_VALUE_STORAGE'} | local_aliases(fn, {'GLOBAL_RARE_VALUE_STORAGE'})
     ign_al = {'IGNORED_VALUES'} | local_aliases(fn, {'IGNORED_VALUES'})
-    cfg = CFG(fn.node)
-    scope = Scope(fn)
-
-    def key_term(e):
-        return Canon(m, scope, inline=True).t(e)
-
-    # increments
-    incs = [n for n in own_nodes(fn.node) if isinstance(n, ast.AugAssign) and isinstance(n.target, ast.Subscript) and isinstance(n.target.value, ast.Name) and n.target.value.id in store_al]
-    if not incs:
-        chk.bad('C13.1', 'R5', fn.site(), 'storage[(column, value)] += 1', 'no increment of the rare-value store found')
-        return
-    for inc in incs:
-        kt = key_term(inc.target.slice)
-        # shape: 2-tuple (column loop variable, value loop variable)
-        loops = []
-        cur = par.get(inc)
-        while cur is not None:
-            if isinstance(cur, ast.For):
-                loops.append(cur)
-            cur = par.get(cur)
-        shape_ok = kt[0] == 'tuple' and len(kt) == 3
-        col_ok = val_ok = False
-        if shape_ok and len(loops) >= 2:
-            inner, outer = loops[0], loops[1]
-            col_ok = isinstance(outer.target, ast.Name) and kt[1] == ('name', outer.target.id)
-            val_ok = isinstance(inner.target, ast.Name) and kt[2] == ('name', inner.target.id)
-            # the value loop ranges over the values of that column; the column loop over all columns
-            it_in = term_of(fn, inner.iter, inline=True)
-            frame = fn.params[0]
-            E = lambda s: expected_term(m, s)
-            col = outer.target.id if isinstance(outer.target, ast.Name) else 'c'
-            ok_inner = it_in in (E(f'{frame}[{col}].values'), E(f'{frame}[{col}]'), E(f'{frame}[{col}].values.tolist()'), E(f'{frame}[{col}].tolist()'))
-            ok_outer = term_of(fn, outer.iter, inline=True) in (E(f'{frame}.columns'), E(f'{frame}'))
-            chk.expect(ok_inner and ok_outer, 'C13.1c', 'R13', fn.site(inner), f'for {ast.unparse(outer.target)} in {ast.unparse(outer.iter)}: for {ast.unparse(inner.target)} in {ast.unparse(inner.iter)}',
-                       'every value of every column of the batch is visited once', 'the counting loops must visit every row value of every column exactly once')
-        chk.expect(shape_ok and col_ok and val_ok, 'C13.1a', 'R5', fn.site(inc), ast.unparse(inc), 'store key is (column, value)', f'the rare-value store must be keyed by (column, value); found key {show(kt)[:100]}')
-        chk.expect(isinstance(inc.op, ast.Add) and isinstance(inc.value, ast.Constant) and inc.value.value == 1, 'C13.1d', 'R13', fn.site(inc), ast.unparse(inc), 'each occurrence counts 1', 'each occurrence must add exactly 1')
-        # membership guard dominating the increment, with the SAME key
-        node = cfg.node_of(inc)
-        ok = False
-        found = []
-        for g in cfg.nodes:
-            if g.kind == 'branch' and g.test is not None and cfg.dominates(g.id, node.id):
-                t = g.test
-                if isinstance(t, ast.Compare) and len(t.ops) == 1 and isinstance(t.ops[0], (ast.In, ast.NotIn)) and isinstance(t.comparators[0], ast.Name) and t.comparators[0].id in ign_al:
-                    gk = key_term(t.left)
-                    found.append((show(gk), type(t.ops[0]).__name__, g.polarity))
-                    notin = isinstance(t.ops[0], ast.NotIn) == bool(g.polarity)
-                    if gk == kt and notin:
-                        ok = True
-                    elif notin:
-                        chk.bad('C13.1b', 'R5', fn.site(t), ast.unparse(t), f'the retirement set is tested with key {show(gk)} but filled with keys of shape {show(kt)}: a retired pair is never recognised and is counted again from zero in the next batch')
-        if not ok and not any(o.oid == 'C13.1b' and o.status == 'violated' for o in chk.obs):
-            chk.bad('C13.2b', 'R3', fn.site(inc), ast.unparse(inc), f'the increment is not dominated by `(column, value) not in <retired set>`: retired pairs are counted again (guards found: {found or "none"})')
-        elif ok:
-            chk.ok('C13.1b', 'R5', fn.site(inc), ast.unparse(inc), 'membership test on the retirement set uses the same key and dominates the increment')
-
-    # retirement: for key, val in storage.items(): if val > bound: ignored.add(key); remove
-    adds = [c for c in calls(fn, attr='add') if isinstance(c.func.value, ast.Name) and c.func.value.id in ign_al]
-    if not adds:
-        chk.bad('C13.2a', 'R14', fn.site(), 'ignored.add(key)', 'pairs above the threshold are no longer retired')
-    for a in adds:
-        st = par.get(a)
-        loops, ifs = [], []
-        cur = par.get(a)
-        while cur is not None:
-            if isinstance(cur, ast.For):
-                loops.append(cur)
-            if isinstance(cur, ast.If):
-                ifs.append(cur)
-            cur = par.get(cur)
-        okshape = False
-        if loops:
-            lp = loops[0]
-            it = lp.iter
-            if isinstance(it, ast.Call) and isinstance(it.func, ast.Attribute) and it.func.attr == 'items' and isinstance(it.func.value, ast.Name) and it.func.value.id in store_al \
-                    and isinstance(lp.target, ast.Tuple) and len(lp.target.elts) == 2 and isinstance(a.args[0], ast.Name) and a.args[0].id == lp.target.elts[0].id:
-                okshape = True
-                cnt = lp.target.elts[1].id
-                bound_ok = False
-                for i in ifs:
-                    t = term_of(fn, i.test, inline=True)
-                    if t == expected_term(m, f'{fn.params[1]}.rare_value_count_upper_bound < {cnt}'):
-                        bound_ok = True
-                    elif t[0] == 'cmp':
-                        chk.bad('C13.2a', 'R14', fn.site(i), ast.unparse(i.test), f'retirement must be `count > args.rare_value_count_upper_bound` (rare = frequency <= bound); found {show(t)[:100]}')
-                if bound_ok:
-                    chk.ok('C13.2a', 'R14', fn.site(ifs[0]), ast.unparse(ifs[0].test), 'a pair is retired exactly when its running count exceeds the bound')
-                elif not any(o.oid == 'C13.2a' and o.status == 'violated' for o in chk.obs):
-                    chk.bad('C13.2a', 'R14', fn.site(a), ast.unparse(st), 'retirement is not guarded by `count > args.rare_value_count_upper_bound`')
-        chk.expect(okshape, 'C13.1e', 'R5', fn.site(a), ast.unparse(a), 'retired keys are the keys of the store itself (same shape)', 'keys added to the retirement set must be the keys of the rare-value store (iteration over storage.items())')
-    # deletions use the retired keys: every key added to the retirement set is also scheduled for deletion (same guard), and every scheduled key is deleted
-    dels = [n for n in own_nodes(fn.node) if isinstance(n, ast.Delete)]
-    pops = [c for c in calls(fn, attr='pop') if isinstance(c.func.value, ast.Name) and c.func.value.id in store_al]
-    ok_del = False
-    for a in adds:
-        blk = par.get(par.get(a))
-        body = getattr(blk, 'body', [])
-        sched = [s for s in body if isinstance(s, ast.Expr) and isinstance(s.value, ast.Call) and isinstance(s.value.func, ast.Attribute) and s.value.func.attr == 'append' and ast.unparse(s.value.args[0]) == ast.unparse(a.args[0]) and isinstance(s.value.func.value, ast.Name)]
-        direct = [s for s in body if isinstance(s, ast.Delete)]
-        if sched:
-            lst = sched[0].value.func.value.id
-            for d in dels:
-                lp = par.get(d)
-                if isinstance(lp, ast.For) and ast.unparse(lp.iter) == lst and isinstance(lp.target, ast.Name) and len(d.targets) == 1 and isinstance(d.targets[0], ast.Subscript) \
-                        and ast.unparse(d.targets[0].slice) == lp.target.id and isinstance(d.targets[0].value, ast.Name) and d.targets[0].value.id in store_al and not any(isinstance(x, ast.If) for x in ast.walk(lp)):
-                    ok_del = True
-        if direct:
-            ok_del = True
-    if pops:
-        ok_del = True
-    chk.expect(ok_del, 'C13.2c', 'R13', fn.site(dels[0]) if dels else fn.site(), 'keys_to_remove.append(key) ... for key in keys_to_remove: del storage[key]', 'every retired pair leaves the rare-value report',
-               'a pair whose count exceeded the threshold is retired but not removed from the rare-value store: frequent values are reported as rare')
     # the retirement set persists: the global is re-bound only to its own alias; the alias is the global (not a fresh set)
     for n in own_nodes(fn.node):
         if isinstance(n, ast.Assign) and len(n.targets) == 1 and isinstance(n.targets[0], ast.Name):
@@ -185,90 +238,128 @@ def rare_values(repo, chk):
 
 # -- 3 / 4 ---------------------------------------------------------------------------------
 def sketches(repo, chk):
+    """One column of one batch in compute_cardinalities, path by path (tests forked, assignments substituted, effect loops summarised):
+       the sketch / bounded counter of the column is constructed only when the column has none yet; the counter receives every row value
+       item by item; the sketch receives internal_hash(v) of every distinct value v of the column except the empty string."""
+    from ..match import run_paths
     fn = repo.func(CR, 'compute_cardinalities')
     m = fn.module
-    par = parents(fn.node)
-    cfg = CFG(fn.node)
     frame = fn.params[0]
-    col_loops = [n for n in own_nodes(fn.node) if isinstance(n, ast.For) and any(isinstance(x, ast.Assign) and isinstance(x.targets[0], ast.Subscript) and ast.unparse(x.targets[0].value) in ('GLOBAL_CARDINALITY_STORAGE',) for x in ast.walk(n))]
-    if len(col_loops) != 1:
-        chk.unsure('C13.3', 'R13', fn.site(), 'for column in frame.columns', 'column loop not found')
+    E = lambda src, bnd=None: expected_term(m, src, bnd or {})
+    col_loops = [n for n in fn.node.body if isinstance(n, ast.For)]
+    cl, col = None, None
+    for n in col_loops:
+        it = term_of(fn, n.iter, inline=True)
+        if it in (E(f'enumerate({frame}.columns)'), E(f'enumerate({frame})'), E(f'enumerate({frame}.columns, 1)'), E(f'enumerate({frame}.columns, start=1)')) and isinstance(n.target, ast.Tuple) and len(n.target.elts) == 2 and isinstance(n.target.elts[1], ast.Name):
+            cl, col = n, n.target.elts[1].id
+        elif it in (E(f'{frame}.columns'), E(frame)) and isinstance(n.target, ast.Name):
+            cl, col = n, n.target.id
+    if cl is None:
+        cand = [n for n in col_loops if any('GLOBAL_CARDINALITY_STORAGE' in ast.unparse(x) for x in ast.walk(n))]
+        if cand:
+            chk.bad('C13.3a', 'R13', fn.site(cand[0]), ast.unparse(cand[0].iter), 'the loop must range over all columns of the batch frame', soft=True)
+        else:
+            chk.unsure('C13.3', 'R13', fn.site(), 'for column in frame.columns', 'column loop not found')
         return
-    cl = col_loops[0]
-    it = term_of(fn, cl.iter, inline=True)
-    E = lambda s: expected_term(m, s)
-    col = None
-    if it in (E(f'enumerate({frame}.columns)'), E(f'enumerate({frame})')) and isinstance(cl.target, ast.Tuple):
-        col = cl.target.elts[1].id
-    elif it in (E(f'{frame}.columns'), E(frame)) and isinstance(cl.target, ast.Name):
-        col = cl.target.id
-    chk.expect(col is not None, 'C13.3a', 'R13', fn.site(cl), ast.unparse(cl.iter), 'every column of the batch is visited', 'the loop must range over all columns of the batch frame')
-    if col is None:
+    chk.ok('C13.3a', 'R13', fn.site(cl), ast.unparse(cl.iter), 'every column of the batch is visited')
+    paths = run_paths(fn, None, None, max_forks=6, body=cl.body)
+    if paths is None:
+        chk.unsure('C13.3', 'R13', fn.site(cl), 'per-column body', 'too many undecidable tests in the per-column body')
         return
-    for store, ctor, oid in (('GLOBAL_CARDINALITY_STORAGE', 'outrank.algorithms.sketches.counting_ultiloglog.HyperLogLogWCache', 'C13.3b'),
-                             ('GLOBAL_COUNTS_STORAGE', 'outrank.algorithms.sketches.counting_counters_ordinary.PrimitiveConstrainedCounter', 'C13.3c')):
-        inits = [n for n in ast.walk(cl) if isinstance(n, ast.Assign) and isinstance(n.targets[0], ast.Subscript) and ast.unparse(n.targets[0].value) == store]
-        if not inits:
-            chk.bad(oid, 'R13', fn.site(cl), f'{store}[{col}] = ...', f'no per-column construction of {store} entries found')
+    C = ('name', col)
+    stores = {'GLOBAL_CARDINALITY_STORAGE': ('outrank.algorithms.sketches.counting_ultiloglog.HyperLogLogWCache', 'C13.3b'), 'GLOBAL_COUNTS_STORAGE': ('outrank.algorithms.sketches.counting_counters_ordinary.PrimitiveConstrainedCounter', 'C13.3c')}
+    col_vals = [E(f'{frame}[{col}]{sfx}') for sfx in ('.values', '', '.values.tolist()', '.tolist()', '.to_numpy()')]
+    distinct = [E(f'set({frame}[{col}])'), E(f'{frame}[{col}].unique()'), E(f'set({frame}[{col}].values)'), E(f'set({frame}[{col}].tolist())'), E(f'set({frame}[{col}].values.tolist())'), E(f'{frame}[{col}].drop_duplicates()')] + col_vals
+    res_ok = {k: [] for k in ('C13.3b', 'C13.3c', 'C13.4a', 'C13.4b', 'C13.4c', 'C13.4d')}
+    problems = {}
+    n_eval = 0
+    for assume, res in paths:
+        if res.unknown is not None:
+            chk.unsure('C13.3', 'R13', fn.site(res.unknown), ast.unparse(res.unknown)[:80], 'a statement outside the vocabulary of effect loops in the per-column body')
             continue
-        for ini in inits:
-            node = cfg.node_of(ini)
-            want = E(f'{col} not in {store}')
-            ok = any(g.kind == 'branch' and g.test is not None and cfg.dominates(g.id, node.id) and
-                     ((g.polarity and term_of(fn, g.test, inline=False) == want) or (g.polarity is False and term_of(fn, g.test, inline=False) == E(f'{col} in {store}'))) for g in cfg.nodes)
-            key_ok = ast.unparse(ini.targets[0].slice) == col
-            c_ok = isinstance(ini.value, ast.Call) and m.dotted(ini.value.func) == ctor
-            chk.expect(ok and key_ok and c_ok, oid, 'R3', fn.site(ini), ast.unparse(ini), f'constructed once per column (guard `{col} not in {store}`)',
-                       f'{store}[{col}] must be constructed only under `{col} not in {store}`: otherwise the sketch/counter is reset every batch and the statistic depends on the batch split')
-    # bounded counter: fed with every row value, item by item
-    cadds = [c for c in ast.walk(cl) if isinstance(c, ast.Call) and isinstance(c.func, ast.Attribute) and isinstance(c.func.value, ast.Subscript) and ast.unparse(c.func.value.value) == 'GLOBAL_COUNTS_STORAGE']
-    okc = False
-    for c in cadds:
-        lp = par.get(par.get(c))
-        item = isinstance(lp, ast.For) and isinstance(lp.target, ast.Name) and c.func.attr == 'add' and len(c.args) == 1 and isinstance(c.args[0], ast.Name) and c.args[0].id == lp.target.id \
-            and ast.unparse(c.func.value.slice) == col
-        full = item and term_of(fn, lp.iter, inline=True) in (E(f'{frame}[{col}].values'), E(f'{frame}[{col}]'), E(f'{frame}[{col}].values.tolist()'), E(f'{frame}[{col}].tolist()'))
-        if c.func.attr != 'add':
-            chk.bad('C13.4a', 'R6', fn.site(c), ast.unparse(c)[:100], f'the bounded counter must be fed item by item with .add (the bound is checked per item); .{c.func.attr} checks the bound once per batch, so the number of tracked values depends on the batch split')
-            okc = None
-        elif full:
-            okc = True
-            chk.ok('C13.4a', 'R13', fn.site(c), ast.unparse(lp).replace('\n', ' ')[:120], 'every row value of the column is counted, item by item')
-    if okc is False:
-        chk.bad('C13.4a', 'R13', fn.site(cl), 'for value in column.values: COUNTS[column].add(value)', 'the bounded counter is not fed with every row value of the column item by item')
-    # sketch: every non-empty distinct value, hashed
-    sadds = [c for c in ast.walk(cl) if isinstance(c, ast.Call) and isinstance(c.func, ast.Attribute) and c.func.attr == 'add' and isinstance(c.func.value, ast.Subscript) and ast.unparse(c.func.value.value) == 'GLOBAL_CARDINALITY_STORAGE']
-    oks = False
-    for c in sadds:
-        lp = None
-        ifs = []
-        cur = par.get(c)
-        while cur is not None and cur is not cl:
-            if isinstance(cur, ast.If):
-                ifs.append(cur)
-            if isinstance(cur, ast.For) and lp is None:
-                lp = cur
-            cur = par.get(cur)
-        if lp is None or not isinstance(lp.target, ast.Name):
-            continue
-        v = lp.target.id
-        it = term_of(fn, lp.iter, inline=True)
-        dom_ok = it in (E(f'set({frame}[{col}])'), E(f'{frame}[{col}].unique()'), E(f'set({frame}[{col}].values)'), E(f'{frame}[{col}]'), E(f'{frame}[{col}].values'), E(f'set({frame}[{col}].tolist())'), E(f'set({frame}[{col}].values.tolist())'))
-        a0 = c.args[0] if c.args else None
-        hash_ok = isinstance(a0, ast.Call) and m.dotted(a0.func) == f'{CU}.internal_hash' and len(a0.args) == 1 and ast.unparse(a0.args[0]) in (v, f'str({v})')
-        guards = [term_of(fn, i.test, inline=False) for i in ifs]
-        empties = (E(f"{v} != ''"), E(f"not (isinstance({v}, str) and {v} == '')"), E(f"not isinstance({v}, str) or {v} != ''"), E(f'{v} is not None'), E(f"not (isinstance({v}, str) and len({v}) == 0)"))
-        truthy = [i for i, g in zip(ifs, guards) if g == E(v)]
-        if truthy:
-            chk.bad('C13.4d', 'R14', fn.site(truthy[0]), ast.unparse(truthy[0].test), f'the truthiness test `if {v}:` skips the empty string but also the numeric values 0 / 0.0 (noise control columns): a constant-zero column gets cardinality 0')
-        g_ok = all(g in empties or g == E(v) for g in guards)
-        key_ok = ast.unparse(c.func.value.slice) == col
-        chk.expect(dom_ok, 'C13.4b', 'R13', fn.site(lp), ast.unparse(lp.iter), 'all distinct values of the column in the batch are inserted', f'the sketch must be fed from all (distinct) values of the column; loop ranges over {show(it)[:100]}')
-        chk.expect(hash_ok and key_ok, 'C13.4c', 'R6', fn.site(c), ast.unparse(c), 'value -> internal_hash(value) -> sketch of its column', 'the sketch of the column must receive internal_hash(value) of the value itself')
-        chk.expect(g_ok, 'C13.4d', 'R14', fn.site(c), ' and '.join(ast.unparse(i.test) for i in ifs) or '(unguarded)', 'only empty values are skipped', f'only the empty value may be skipped when feeding the sketch; guards: {[show(g) for g in guards]}')
-        oks = True
-    if not oks:
-        chk.bad('C13.4b', 'R13', fn.site(cl), 'for v in set(column): CARD[column].add(internal_hash(v))', 'the cardinality sketch is no longer fed with the distinct values of the batch')
+        n_eval += 1
+        has = {}
+        for t_ast, v in res.assumed:
+            tt = term_of(fn, t_ast, inline=False)
+            for st in stores:
+                if tt == E(f'{col} not in {st}'):
+                    has[st] = not v
+                elif tt == E(f'{col} in {st}'):
+                    has[st] = v
+        # construction of the per-column objects
+        for st, (ctor, oid) in stores.items():
+            inits = [u for u in res.updates if u['kind'] == 'store1' and term_of(fn, u['target'], inline=False) == ('name', st)]
+            for u in inits:
+                key_ok = term_of(fn, u['key'], inline=False) == C
+                c_ok = isinstance(u['value'], ast.Call) and m.dotted(u['value'].func) == ctor
+                if has.get(st) is False and key_ok and c_ok:
+                    res_ok[oid].append(u)
+                else:
+                    problems.setdefault(oid, (u['node'], f'{st}[{col}] must be constructed only under `{col} not in {st}`: otherwise the sketch/counter is reset every batch and the statistic depends on the batch split'))
+            if has.get(st) is False and not inits:
+                problems.setdefault(oid, (cl, f'no construction of {st}[{col}] on the path where the column has no entry yet'))
+        # the feeding loops
+        feeds = [u for u in res.updates if u['kind'] == 'foreach' and u['op'] == 'call']
+        cnt_feeds, sk_feeds = [], []
+        for u in feeds:
+            chain, key, val, guard, a_, tgt = _loop_terms(fn, u, {col: C})
+            if tgt == ('sub', ('name', 'GLOBAL_COUNTS_STORAGE'), C):
+                cnt_feeds.append((u, chain, guard, a_))
+            elif tgt == ('sub', ('name', 'GLOBAL_CARDINALITY_STORAGE'), C):
+                sk_feeds.append((u, chain, guard, a_))
+            elif tgt[0] == 'sub' and tgt[1] in (('name', 'GLOBAL_COUNTS_STORAGE'), ('name', 'GLOBAL_CARDINALITY_STORAGE')):
+                problems.setdefault('C13.4c', (u['node'], f'the statistic of column `{col}` is fed into the object of another key ({show(tgt)[:60]})'))
+        flat_calls = [(term_of(fn, c['call'], inline=False), c) for c in res.calls]
+        for t, c in flat_calls:
+            if t[0] == 'call' and t[1][0] == 'attr' and t[1][1] == ('sub', ('name', 'GLOBAL_COUNTS_STORAGE'), C) and t[1][2] != 'add':
+                problems.setdefault('C13.4a', (c['node'], f'the bounded counter must be fed item by item with .add (the bound is checked per item); .{t[1][2]} checks the bound once per batch, so the number of tracked values depends on the batch split'))
+        L = ('lvar', 0, 0)
+        if len(cnt_feeds) == 1:
+            u, chain, guard, a_ = cnt_feeds[0]
+            ok = u['method'] == 'add' and len(chain) == 1 and chain[0] in col_vals and guard is None and a_ == [L]
+            if u['method'] != 'add':
+                problems.setdefault('C13.4a', (u['node'], f'the bounded counter must be fed item by item with .add (the bound is checked per item); .{u["method"]} is used'))
+            elif ok:
+                res_ok['C13.4a'].append(u)
+            else:
+                problems.setdefault('C13.4a', (u['node'], 'the bounded counter is not fed with every row value of the column item by item'))
+        elif not cnt_feeds and 'C13.4a' not in problems:
+            opaque = [e for e in res.effects if 'GLOBAL_COUNTS_STORAGE' in ast.unparse(_subst_env(e, res))]
+            problems.setdefault('C13.4a', (opaque[0] if opaque else cl, 'the bounded counter is not fed with every row value of the column item by item', bool(opaque)))
+        if len(sk_feeds) == 1:
+            u, chain, guard, a_ = sk_feeds[0]
+            dom_ok = u['method'] == 'add' and len(chain) == 1 and chain[0] in distinct
+            if dom_ok:
+                res_ok['C13.4b'].append(u)
+            else:
+                problems.setdefault('C13.4b', (u['node'], f'the sketch must be fed from all (distinct) values of the column; loop ranges over {show(chain[0])[:100] if chain else None}'))
+            hash_ok = a_ in ([expected_term(m, f'{CU}.internal_hash(V)', {'V': L})], [expected_term(m, f'{CU}.internal_hash(str(V))', {'V': L})])
+            if hash_ok:
+                res_ok['C13.4c'].append(u)
+            else:
+                problems.setdefault('C13.4c', (u['node'], 'the sketch of the column must receive internal_hash(value) of the value itself'))
+            empties = [expected_term(m, src, {'V': L}) for src in ("V != ''", "not (isinstance(V, str) and V == '')", "not isinstance(V, str) or V != ''", 'V is not None', "not (isinstance(V, str) and len(V) == 0)")]
+            if guard is None or guard in empties:
+                res_ok['C13.4d'].append(u)
+            elif guard == L:
+                problems.setdefault('C13.4d', (u['node'], 'the truthiness test skips the empty string but also the numeric values 0 / 0.0 (noise control columns): a constant-zero column gets cardinality 0'))
+            else:
+                problems.setdefault('C13.4d', (u['node'], f'only the empty value may be skipped when feeding the sketch; guard: {show(guard)[:100]}'))
+        elif not sk_feeds and 'C13.4b' not in problems:
+            opaque = [e for e in res.effects if 'GLOBAL_CARDINALITY_STORAGE' in ast.unparse(_subst_env(e, res))]
+            problems.setdefault('C13.4b', (opaque[0] if opaque else cl, 'the cardinality sketch is no longer fed with the distinct values of the batch', bool(opaque)))
+    good = {'C13.3b': 'sketch constructed once per column', 'C13.3c': 'bounded counter constructed once per column', 'C13.4a': 'every row value of the column is counted, item by item',
+            'C13.4b': 'all distinct values of the column in the batch are inserted', 'C13.4c': 'value -> internal_hash(value) -> sketch of its column', 'C13.4d': 'only empty values are skipped'}
+    for oid, why_ok in good.items():
+        if oid in problems:
+            pr = problems[oid]
+            node, why = pr[0], pr[1]
+            if len(pr) > 2 and pr[2]:
+                chk.unsure(oid, 'R13', fn.site(node), ast.unparse(node).replace('\n', ' ')[:100], 'the statement that feeds the statistic is outside the vocabulary of effect loops; the rule would report: ' + why)
+            else:
+                chk.bad(oid, 'R13' if oid != 'C13.4c' else 'R6', fn.site(node), ast.unparse(node).replace('\n', ' ')[:100], why)
+        elif res_ok[oid] or n_eval:
+            chk.ok(oid, 'R13', fn.site(cl), f'{n_eval} path(s) of the per-column body', why_ok)
     # called once per batch on the final frame
     cbr = repo.func(CR, 'compute_batch_ranking')
     cs = [c for c in calls(cbr) if cbr.module.dotted(c.func) == f'{CR}.compute_cardinalities']
@@ -426,7 +517,7 @@ def coverage(repo, chk):
                 for rows in (f'{frame}.shape[0]', f'len({frame})'):
                     forms.append(E(f'(1 - {summ} / {rows}) * 100'))
                     forms.append(E(f'100 * (1 - {summ} / {rows})'))
-    chk.expect(t in forms, 'C13.5a', 'R15', fn.site(st), ast.unparse(st)[:160], 'coverage = (1 - missing/rows) * 100, missing = exact occurrences of the missing symbols',
+    chk.expect_term(t, forms, 'C13.5a', 'R15', fn.site(st), ast.unparse(st)[:160], 'coverage = (1 - missing/rows) * 100, missing = exact occurrences of the missing symbols',
                f'coverage must be (1 - (sum of exact occurrence counts of the missing symbols) / rows) * 100; found {show(t)[:220]}')
     chk.expect(ast.unparse(st.targets[0].slice) == col and term_of(fn, lp.iter, inline=True) in (E(frame), E(f'{frame}.columns')), 'C13.5b', 'R13', fn.site(lp), ast.unparse(lp.iter), 'one percentage per column of the batch', 'coverage must be stored per column for all columns')
     # per-batch accumulation in the streaming loop: local_coverage_object[k].append(v)
@@ -491,23 +582,56 @@ def annotation_and_histogram(repo, chk):
 def rare_table(repo, chk):
     fn = repo.func(CU, 'summarize_rare_counts')
     tc = fn.params[0]
-    loops = [n for n in own_nodes(fn.node) if isinstance(n, ast.For) and isinstance(n.iter, ast.Call) and ast.unparse(n.iter) == f'{tc}.items()']
-    ok = False
-    if loops:
-        lp = loops[0]
-        if isinstance(lp.target, ast.Tuple) and len(lp.target.elts) == 2:
-            k, cnt = lp.target.elts[0].id, lp.target.elts[1].id
-            unp = [s for s in lp.body if isinstance(s, ast.Assign) and isinstance(s.targets[0], ast.Tuple) and isinstance(s.value, ast.Name) and s.value.id == k]
-            aps = [c for c in ast.walk(lp) if isinstance(c, ast.Call) and isinstance(c.func, ast.Attribute) and c.func.attr == 'append']
-            if unp and len(aps) == 1 and isinstance(aps[0].args[0], ast.List):
-                a, b = [e.id for e in unp[0].targets[0].elts]
-                ok = [ast.unparse(e) for e in aps[0].args[0].elts] == [a, b, cnt] and not any(isinstance(x, ast.If) for x in ast.walk(lp))
-    chk.expect(ok, 'C13.7a', 'R15', fn.site(loops[0]) if loops else fn.site(), 'rows [namespace, value, count] for every entry of the store', 'rare table lists every remaining (column, value) with its exact count',
-               'the rare-value table must contain one row [namespace, value, count] for every entry of the rare-value store, unfiltered')
-    wr = [c for c in calls(fn, attr='to_csv') if 'rare_values.tsv' in ast.unparse(c)]
-    okw = len(wr) == 1 and isinstance(wr[0].func.value, ast.Name) and any(isinstance(n, (ast.Assign, ast.AnnAssign)) and n.value is not None and ast.unparse(n.targets[0] if isinstance(n, ast.Assign) else n.target) == wr[0].func.value.id and 'DataFrame(' in ast.unparse(n.value) and loops and any(isinstance(c, ast.Call) and isinstance(c.func, ast.Attribute) and c.func.attr == 'append' and isinstance(c.func.value, ast.Name) and f'DataFrame({c.func.value.id})' in ast.unparse(n.value) for c in ast.walk(loops[0])) for n in own_nodes(fn.node)) \
-        and not _conditional(fn, wr[0])
-    chk.expect(okw, 'C13.7d', 'origin', fn.site(wr[0]) if wr else fn.site(), ast.unparse(wr[0]).replace('\n', ' ')[:120] if wr else 'out_df.to_csv(rare_values.tsv)', 'rare_values.tsv is written from exactly these rows', 'rare_values.tsv must be written, unconditionally, from the frame of all [namespace, value, count] rows')
+    # path evaluation: the frame that is written to rare_values.tsv, as one expression over the parameters
+    from ..match import run_paths
+    from ..terms import pattern, unify, unkind
+    m = fn.module
+    paths = run_paths(fn, None, None, max_forks=4)
+    wrote = 0
+    if paths is None:
+        chk.unsure('C13.7a', 'R15', fn.site(), 'summarize_rare_counts', 'too many undecidable tests')
+        paths = []
+    rows_pats = [pattern(m, f'[[kv[0][0], kv[0][1], kv[1]] for kv in {tc}.items()]'), pattern(m, f'[(kv[0][0], kv[0][1], kv[1]) for kv in {tc}.items()]'), pattern(m, f'[[*kv[0], kv[1]] for kv in {tc}.items()]'),
+                 pattern(m, f'[(*kv[0], kv[1]) for kv in {tc}.items()]')]
+    for assume, res in paths:
+        if res.unknown is not None:
+            chk.unsure('C13.7a', 'R15', fn.site(res.unknown), ast.unparse(res.unknown)[:80], 'a statement outside the path vocabulary in summarize_rare_counts')
+            continue
+        wr = [c for c in res.calls if isinstance(c['call'].func, ast.Attribute) and c['call'].func.attr == 'to_csv' and 'rare_values.tsv' in ast.unparse(c['call'])]
+        if not wr:
+            if not assume:
+                chk.bad('C13.7d', 'origin', fn.site(), 'out_df.to_csv(rare_values.tsv)', 'rare_values.tsv must be written, unconditionally, from the frame of all [namespace, value, count] rows')
+            else:
+                chk.bad('C13.7d', 'origin', fn.site(), ', '.join(f'{ast.unparse(t)[:40]} is {v}' for t, v in assume), 'rare_values.tsv must be written, unconditionally: on this path it is not written')
+            continue
+        wrote += 1
+        recv = wr[0]['call'].func.value
+        rt = term_of(fn, recv, inline=False)
+        # the frame: pd.DataFrame(ROWS[, columns=...]) possibly followed by order-only operations
+        core = rt
+        while core[0] == 'call' and core[1][0] == 'attr' and core[1][2] in ('sort_values', 'reset_index', 'copy'):
+            core = core[1][1]
+        b_ = None
+        for src in ('pandas.DataFrame(ROWS)', 'pandas.DataFrame(ROWS, columns=COLS)', 'pandas.DataFrame(data=ROWS)', 'pandas.DataFrame(data=ROWS, columns=COLS)'):
+            b_ = unify(pattern(m, src, ['ROWS', 'COLS']), core)
+            if b_ is not None:
+                break
+        site = fn.site(wr[0]['node'])
+        shown = ast.unparse(recv)[:160]
+        if b_ is None:
+            if core[0] == 'name':
+                chk.unsure('C13.7a', 'R15', site, shown, 'the frame that is written is built step by step: its rows could not be written as one expression')
+            else:
+                chk.bad('C13.7a', 'R15', site, shown, 'the rare-value table must contain one row [namespace, value, count] for every entry of the rare-value store, unfiltered', soft=True)
+            continue
+        rows = unkind(b_['ROWS'])
+        if any(unify(unkind(pt), rows) is not None for pt in rows_pats):
+            chk.ok('C13.7a', 'R15', site, shown, 'rare table lists every remaining (column, value) with its exact count')
+            chk.ok('C13.7d', 'origin', site, ast.unparse(wr[0]['call'])[:120], 'rare_values.tsv is written from exactly these rows')
+        elif rows[0] in ('listcomp',) and any(g[1] for g in rows[2]):
+            chk.bad('C13.7a', 'R15', site, shown, 'the rare-value table must contain one row [namespace, value, count] for every entry of the rare-value store, unfiltered (the rows are filtered)')
+        else:
+            chk.expect_term(rows, [unkind(pt) for pt in rows_pats], 'C13.7a', 'R15', site, shown, '', 'the rare-value table must contain one row [namespace, value, count] for every entry of the rare-value store, unfiltered')
     cols = [n for n in own_nodes(fn.node) if isinstance(n, ast.Assign) and ast.unparse(n.targets[0]).endswith('.columns') and isinstance(n.value, ast.List)]
     okc = any([getattr(e, 'value', None) for e in n.value.elts] == ['Namespace', 'value', 'Count'] for n in cols)
     chk.expect(okc, 'C13.7b', 'R8', fn.site(cols[0]) if cols else fn.site(), "columns ['Namespace', 'value', 'Count']", 'columns in row order', 'column labels of the rare table must be Namespace, value, Count in row order')
